@@ -384,6 +384,23 @@ func checkC15(c *ev.Ctx) {
 		}
 		c.Set("token_boundary_rune_cases", nb)
 	}
+	// host lists with empty elements and odd separators (no whitespace, no '@': inside the property's domain): the list is
+	// carried verbatim in both formats
+	{
+		nh := 0
+		for _, hosts := range []string{"host01,,host02", ",host01", "host01,", ",", ",,", "h1,h2,", "a,,", "h1,,h2,,h3", ";", "h1;h2", "h1,h1", "H1,h1", "h1,=", "=,="} {
+			for _, ifv := range []int{6, 7, 0, 1} {
+				for _, ff := range []bool{false, true} {
+					for _, tm := range []int64{0, 5} {
+						c15Attrs(c, message.Attributes{IfVer: ifv, Username: "u", Hostname: "h", SSHClientVersion: "8.1",
+							TouchlessSudo: &message.TouchlessSudo{IsFirefighter: ff, Hosts: hosts, Time: tm}})
+						nh++
+					}
+				}
+			}
+		}
+		c.Set("host_list_shape_cases", nh)
+	}
 	// JSON catalogue: objects that also look like legacy text, missing fields, wrong types, non-objects
 	full := `"username":"u","hostname":"h","sshClientVersion":"8.1"`
 	cat := []string{"null", "[]", "[1]", "7", `"s"`, `"req=u@h"`, "true", "{}", "{" + full + "}", `{"username":"u","hostname":"h"}`, `{"username":"u","sshClientVersion":"8.1"}`,
